@@ -15,6 +15,9 @@ type Clock struct {
 	OnSleep func(d time.Duration)
 	// Reads counts clock reads (coverage statistic only).
 	Reads uint64
+	// OnRead, when set, runs before every clock read (fault injection: time that moves on while one
+	// operation of the code under test is in progress).
+	OnRead func()
 }
 
 type SleepReq struct {
@@ -44,6 +47,9 @@ func (c *Clock) AdvanceMs(d uint64) { c.ns += d * 1e6 }
 
 //go:norace
 func (c *Clock) Now() time.Time {
+	if c.OnRead != nil {
+		c.OnRead()
+	}
 	c.Reads++
 	noteClockRead(c.ns, 2)
 	return time.Unix(0, int64(c.ns))
@@ -51,6 +57,9 @@ func (c *Clock) Now() time.Time {
 
 //go:norace
 func (c *Clock) CurrentTimeMillis() uint64 {
+	if c.OnRead != nil {
+		c.OnRead()
+	}
 	c.Reads++
 	noteClockRead(c.ns, 0)
 	return c.ns / 1e6
@@ -58,6 +67,9 @@ func (c *Clock) CurrentTimeMillis() uint64 {
 
 //go:norace
 func (c *Clock) CurrentTimeNano() uint64 {
+	if c.OnRead != nil {
+		c.OnRead()
+	}
 	c.Reads++
 	noteClockRead(c.ns, 1)
 	return c.ns
